@@ -203,6 +203,22 @@ def _getattr(ex, st, args, kwargs, node):
     raise Unsupported('getattr with a computed name')
 
 
+@model('builtins.type')
+def _type(ex, st, args, kwargs, node):
+    from .engine import FuncV
+    if len(args) == 1:
+        v = args[0]
+        if type(v).__name__ == 'AbsObj':
+            return FuncV('class', v.cls)
+        if isinstance(v, Ref) and isinstance(st.get(v), Obj):
+            return FuncV('class', st.get(v).cls)
+        raise Unsupported('type(%r)' % (v,))
+    h = ex.unit.abstract.get('new:type')
+    if h is None:
+        raise Unsupported('type(name, bases, dict) without an assumed contract')
+    return h(ex, st, args, kwargs, node)
+
+
 @model('builtins.slice')
 def _slice(ex, st, args, kwargs, node):
     return ('<slice>',) + tuple(args)
@@ -538,6 +554,8 @@ def _sum_arr(ex, st, a, axis, node):
         return c.Sum(0, a.shape[0], lambda i: c.Sum(0, a.shape[1], lambda j: a.elem((i, j))))
     if a.ndim == 0:
         return a.elem(())
+    if a.ndim == 3 and axis in (2, -1):
+        return st.alloc(c, Arr((a.shape[0], a.shape[1]), lambda ix: c.Sum(0, a.shape[2], lambda k: a.elem((ix[0], ix[1], k))), 'real'))
     raise Unsupported('sum over %d-d array axis=%r' % (a.ndim, axis))
 
 
@@ -1045,7 +1063,11 @@ def _isinstance(ex, st, args, kwargs, node):
         return 'int' in names
     if isinstance(v, float) or (is_sym(v) and z3.is_real(v)):
         return 'float' in names
-    if v is None or type(v).__name__ in ('AbsObj', 'FuncV', 'NanRef'):
+    if type(v).__name__ == 'AbsObj':
+        from . import source
+        chain = [ci.name for ci in source.mro(v.cls)] or [v.cls]
+        return any(n in chain for n in names)
+    if v is None or type(v).__name__ in ('FuncV', 'NanRef'):
         return False           # not an instance of any of the built-in / numpy types asked for
     raise Unsupported('isinstance(%r, %r)' % (v, names))
 
